@@ -637,6 +637,42 @@ def make_version_workload(seed):
     return "\n".join(lines) + "\n", {}, {"shape": "version", "threads": nthreads, "kind": "version"}
 
 
+def make_toprank_workload(seed):
+    """readers look up the highest-ranked keys of one border while writers remove and re-insert
+    lower keys of the same border: a lookup must use ONE permutation word (order and count)"""
+    r = random.Random("toprank/%d" % seed)
+    n = r.choice([3, 6, 12, 14])
+    keys = [b"k%02d" % i for i in range(n)]
+    lines = ["storage 61", "bg 0"]
+    pre = {}
+    for k in keys:
+        lines.append("pre put %s %s" % (hx(k), hx(b"p" + k[-3:])))
+        pre[k] = (b"p" + k[-3:]).hex()
+    top = keys[-2:]
+    low = keys[:-2] if n > 2 else keys[:1]
+    nthreads = r.choice([2, 3, 3])
+    for t in range(nthreads):
+        lines.append("thread %d" % t)
+        if t == 0 or (t == 2 and r.random() < 0.5):
+            for i in range(r.choice([2, 3, 4])):
+                k = r.choice(top)
+                x = r.random()
+                if x < 0.7:
+                    lines.append("op get %s" % hx(k))
+                elif x < 0.85:
+                    lines.append("op put %s %s 0" % (hx(k), hx(b"%du%d" % (t, i))))
+                else:
+                    lines.append("op put %s %s 1" % (hx(k), hx(b"%dq%d" % (t, i))))
+        else:
+            for i in range(r.choice([2, 3, 4])):
+                k = r.choice(low)
+                if r.random() < 0.6:
+                    lines.append("op remove %s" % hx(k))
+                else:
+                    lines.append("op put %s %s 0" % (hx(k), hx(b"%dw%d" % (t, i))))
+    return "\n".join(lines) + "\n", pre, {"shape": "toprank", "threads": nthreads, "kind": "toprank"}
+
+
 def make_rmrace_workload(seed):
     """several sessions remove (and re-insert) the SAME keys: the loser of a remove/remove race must
     find the key gone under the lock and leave without touching the node; values inline
@@ -701,6 +737,8 @@ def make_workload(seed, kind, shape=None):
     """returns (text, pre dict, meta)"""
     if kind == "rmrace":
         return make_rmrace_workload(seed)
+    if kind == "toprank":
+        return make_toprank_workload(seed)
     if kind == "version":
         return make_version_workload(seed)
     if kind == "collapse":
